@@ -27,7 +27,7 @@ TraceInit ==
   /\ TLCSet(1, 1)
   /\ l = 1 /\ chunks = <<>> /\ ci = 0
   /\ content = <<>> /\ pre = 0 /\ head = TRUE /\ cap = 1 /\ written = 0 /\ pos = 0
-  /\ buf = <<>> /\ cur = <<>> /\ line = <<>> /\ delivered = <<>> /\ pc = "stopped" /\ idle = 0 /\ hist = <<>>
+  /\ buf = <<>> /\ cur = <<>> /\ line = <<>> /\ delivered = <<>> /\ pc = "stopped" /\ idle = 0 /\ running = TRUE /\ hist = <<>>
 
 TStart ==
   /\ IsEvent("start")
@@ -36,7 +36,7 @@ TStart ==
   /\ chunks' = Rec[l].chunks /\ ci' = 0
   /\ written' = Rec[l].pre
   /\ pos' = IF Rec[l].head THEN 0 ELSE Rec[l].pre
-  /\ buf' = <<>> /\ cur' = <<>> /\ line' = <<>> /\ delivered' = <<>> /\ pc' = "fill" /\ idle' = 0 /\ hist' = <<>>
+  /\ buf' = <<>> /\ cur' = <<>> /\ line' = <<>> /\ delivered' = <<>> /\ pc' = "fill" /\ idle' = 0 /\ running' = TRUE /\ hist' = <<>>
 
 TDeliver ==
   /\ IsEvent("deliver")
